@@ -278,6 +278,101 @@ def bounds_discharged(fn, item, defs=None, idom=None):
     return False, None
 
 
+def _same_slice(fn, defs, a, b, blk):
+    ka, kb = _trace_copy(fn, defs, a, blk), _trace_copy(fn, defs, b, blk)
+    return ka is not None and ka == kb
+
+
+def _le_len(fn, defs, op, slice_op, blk, depth=0):
+    """Is the usize operand `op` at most the length of the slice `slice_op` refers to?  Sound local facts only:
+    the slice's own len(); an index found by position / rposition over that slice's iter() (strictly less);
+    unwrap_or of such values; the payload of a match on such an Option."""
+    if depth > 6 or op.get("c") not in ("copy", "move"):
+        return False
+    pl = op["pl"]
+    if pl["p"]:
+        # payload of `Some(i)`: (opt as Some).0 of a local holding a position result
+        if len(pl["p"]) == 2 and isinstance(pl["p"][0], dict) and "d" in pl["p"][0] and pl["p"][0].get("n") == "Some" \
+                and isinstance(pl["p"][1], dict) and pl["p"][1].get("f") == 0:
+            return _is_position_of(fn, defs, {"c": "copy", "pl": {"l": pl["l"], "p": []}}, slice_op, blk, depth + 1)
+        return False
+    ds = defs.get(pl["l"], [])
+    if len(ds) != 1:
+        return False
+    (db, si, d) = ds[0]
+    if si == "term":
+        c = d["callee"]
+        p = c.get("path", "")
+        if (p.endswith("<impl [T]>::len") or p.endswith("Vec::<T, A>::len")) and _same_slice(fn, defs, d["args"][0], slice_op, blk):
+            return True
+        if p == "std::option::Option::<T>::unwrap_or" and len(d["args"]) == 2:
+            return _is_position_of(fn, defs, d["args"][0], slice_op, blk, depth + 1) and \
+                _le_len(fn, defs, d["args"][1], slice_op, blk, depth + 1)
+        return False
+    if d["k"] == "use":
+        return _le_len(fn, defs, d["op"], slice_op, blk, depth + 1)
+    if d["k"] == "un" and d["op"] == "PtrMetadata":
+        return _same_slice(fn, defs, d["a"], slice_op, blk)
+    return False
+
+
+def _is_position_of(fn, defs, op, slice_op, blk, depth):
+    """`op` holds the Option<usize> returned by position / rposition over `slice.iter()` of the same slice."""
+    if depth > 6 or op.get("c") not in ("copy", "move") or op["pl"]["p"]:
+        return False
+    ds = defs.get(op["pl"]["l"], [])
+    if len(ds) != 1:
+        return False
+    (db, si, d) = ds[0]
+    if si != "term":
+        return d["k"] == "use" and _is_position_of(fn, defs, d["op"], slice_op, blk, depth + 1)
+    p = d["callee"].get("path", "")
+    if p not in ("std::iter::Iterator::position", "std::iter::Iterator::rposition"):
+        return False
+    st = (d["callee"].get("substs") or [""])[0]
+    if not st.startswith("std::slice::Iter<"):
+        return False
+    # the iterator: `<[T]>::iter(slice)`
+    it = d["args"][0]
+    ids = None
+    for _ in range(4):
+        if it.get("c") not in ("copy", "move") or it["pl"]["p"]:
+            return False
+        ids = defs.get(it["pl"]["l"], [])
+        if len(ids) != 1:
+            return False
+        if ids[0][1] == "term":
+            break
+        rv = ids[0][2]
+        if rv["k"] == "use":
+            it = rv["op"]
+        elif rv["k"] in ("ref", "rawptr") and not rv["pl"]["p"]:
+            it = {"c": "copy", "pl": {"l": rv["pl"]["l"], "p": []}}      # `&mut iter`
+        else:
+            return False
+    else:
+        return False
+    ic = ids[0][2]
+    return ic["callee"].get("path", "").endswith("<impl [T]>::iter") and _same_slice(fn, defs, ic["args"][0], slice_op, blk)
+
+
+def range_index_discharged(fn, it, defs):
+    """`x[..n]` with n <= len(x) by a local argument (see _le_len)."""
+    t = fn.blocks[it["block"]]["term"]
+    if t["k"] != "call" or len(t["args"]) != 2 or not it["detail"].endswith("[std::ops::RangeTo<usize>]"):
+        return None
+    rng = t["args"][1]
+    if rng.get("c") not in ("copy", "move") or rng["pl"]["p"]:
+        return None
+    ds = defs.get(rng["pl"]["l"], [])
+    if len(ds) != 1 or ds[0][1] == "term" or ds[0][2]["k"] != "agg" or not ds[0][2]["fields"]:
+        return None
+    end = ds[0][2]["fields"][0]
+    if _le_len(fn, defs, end, t["args"][0], it["block"]):
+        return "the end is the slice's own length or a position found in it"
+    return None
+
+
 def _divisor_nonzero_by_callers(crate, fn, it):
     """The divisor is a parameter of a private function and every call site in the crate passes a non-zero
     constant or the caller's own `radix` parameter (R-RADIX-CONST: always 2, 8, 10 or 16).  Returns a reason."""
@@ -386,6 +481,14 @@ def scan(rule, crate, fn_pred, table, kinds, label):
                 why = _divisor_nonzero_by_callers(crate, fn, it)
                 if why:
                     rule.ok("%s: %s" % (fn.path, why), fn, it["line"])
+                    continue
+            if it["kind"] == "index":
+                if defs is None:
+                    defs = common.defs_of(fn)
+                    idom = cfg.dominators(fn)
+                why = range_index_discharged(fn, it, defs)
+                if why:
+                    rule.ok("%s: `x[..n]` cannot be out of range (%s)" % (fn.path, why), fn, it["line"])
                     continue
             if it["kind"] == "index" and it["detail"].endswith("[std::ops::RangeFull]"):
                 rule.ok("%s: `[..]` (RangeFull) never panics" % fn.path, fn, it["line"])
